@@ -235,6 +235,15 @@ impl SettingsSpec {
                 s.tol_infeas_abs = 1e-10;
                 s.tol_infeas_rel = 1e-10;
             }
+            3 => {
+                // only feasibility is demanding: the residual tests are the binding ones
+                s.tol_gap_abs = 1e-3;
+                s.tol_gap_rel = 1e-3;
+            }
+            4 => {
+                // only the gap is demanding
+                s.tol_feas = 1e-3;
+            }
             _ => {}
         }
         s.max_step_fraction = self.max_step_fraction;
@@ -250,7 +259,7 @@ impl SettingsSpec {
             "equilibrate_enable": self.equilibrate_enable, "presolve_enable": self.presolve_enable,
             "static_regularization_enable": self.static_reg, "dynamic_regularization_enable": self.dynamic_reg,
             "iterative_refinement_enable": self.iterative_refinement, "direct_solve_method": self.method,
-            "tol_profile": (["default 1e-8","loose 1e-5","tight 1e-10"][self.tol_profile as usize]),
+            "tol_profile": (["default 1e-8","loose 1e-5","tight 1e-10","gap 1e-3 / feas 1e-8","feas 1e-3 / gap 1e-8"][self.tol_profile as usize]),
             "max_step_fraction": self.max_step_fraction, "equilibrate_max_iter": self.equilibrate_max_iter,
             "max_iter": self.max_iter, "linesearch_backtrack_step": self.linesearch_backtrack_step,
             "max_threads": self.max_threads, "chordal_decomposition_enable": self.chordal,
@@ -276,6 +285,8 @@ impl SettingsSpec {
         push(&|s| s.method = "faer");
         push(&|s| s.tol_profile = 1);
         push(&|s| s.tol_profile = 2);
+        push(&|s| s.tol_profile = 3);
+        push(&|s| s.tol_profile = 4);
         push(&|s| s.max_step_fraction = 0.5);
         push(&|s| s.equilibrate_max_iter = 1);
         v
